@@ -177,7 +177,7 @@ def cmp_unwind(n, passes=2):
 LOOKUP_STUBS = ["a5::core::cell::lonlat_to_estimate ↦ any in-range estimate (nondeterministic)",
                 "a5::core::cell::a5cell_contains_point ↦ constant Ok(1.0) (first probe hits)"]
 LK = ["a5::core::cell::lonlat_to_cell", "a5::core::serialization::serialize"]
-COMPACT_STUBS = ["<[u64]>::sort_unstable ↦ identity (input assumed strictly increasing)", "verif_set::HashSet in ASSUME_UNIQUE mode",
+COMPACT_STUBS = ["core::slice::sort::unstable::sort (back end of every sort_unstable* call) ↦ bounded insertion sort, ≤ 6 elements, same contract", "verif_set::HashSet in ASSUME_UNIQUE mode (inputs pairwise distinct)",
                  "get_resolution ↦ loop-free res_stub (proved equal on all 2^64 inputs by oracle_res_equiv)"]
 PROPERTIES["C14"] = dict(
     explanation="every root-exported integer-surface function on every u64 / i32 / Option<i32>: no panic, no arithmetic/shift overflow, no OOB, "
@@ -259,8 +259,6 @@ PROPERTIES["C17"] = dict(
         H("c17_seq_n2", "c17", [Q, T], "as c17_n2, after s_to_anchor/ij_to_s were just used for an arbitrary other (position, orientation): results do not depend on the previous call",
           functions=HIL, bounds="n=2, two-call sequences", cfgs=["verif_c17"], timeout=1500, mem_gb=8),
         H("c17_seq_n3", "c17", [T], "as c17_seq_n2 at depth 3", functions=HIL, bounds="n=3, two-call sequences", cfgs=["verif_c17"], timeout=2400, mem_gb=8),
-        H("c17_anchor_depth29", "c17", [T], "∀ s<4^29, 6 orientations: anchor is an integer lattice point within the closed quintant triangle (±1 for flipped cells); no overflow",
-          functions=HIL[:3], bounds="n=29", cfgs=["verif_c17"], timeout=5400, mem_gb=24, mem_est=12),
         H("c17_anchor_depth28", "c17", [T], "∀ s<4^28, 6 orientations: s_to_anchor has no overflow (1<<n, (1<<2n)−s−1), k<4, integer lattice offset",
           functions=HIL[:3], bounds="n=28", cfgs=["verif_c17"], timeout=3600, mem_gb=16),
     ],
@@ -358,7 +356,7 @@ for k in ("C04", "C06", "C18"):
 # ------------------------------------------------------------------------------------------ C08 / C09 / C10
 CMP = ["a5::core::compact::compact (whole body incl. both prelude statements and the fixed-point loop)", "a5::core::serialization::is_first_child",
        "a5::core::serialization::get_stride", "a5::core::serialization::cell_to_parent", "a5::core::serialization::deserialize", "a5::core::serialization::serialize"]
-SORTED = "input: strictly increasing N-tuple of canonical cell IDs (every state the pass loop can be entered in); ancestor/descendant overlaps allowed"
+SORTED = "input: strictly increasing N-tuple of canonical cell IDs = one arrangement per set of N distinct cells (compact sorts its input itself); ancestor/descendant overlaps allowed"
 CDEPS = ["oracle_res_equiv", "oracle_valid_equiv", "oracle_covers_equiv"]
 
 
@@ -376,11 +374,11 @@ PROPERTIES["C08"] = dict(
                c08c(2, [Q, T], 1200, 12, 4), c08c(3, [Q, T], 2400, 24, 12), c08c(4, [T], 5400, 40, 16), c08c(5, [T], 7200, 45, 20),
                H("c08_group4_merges", "c08", [Q, T], "∀ valid parent p (r 1..28): compact(its 4 children) = [p]", functions=CMP, bounds="N=4 built from one symbolic parent; passes ≤ 2", unwindset=cmp_unwind(4), assumes=COMPACT_STUBS, timeout=2400, mem_gb=24, mem_est=10),
                H("c08_prelude_swap", "c08", [Q, T], "∀ two arbitrary valid cells (unsorted, possibly equal): compact([a,b]) = compact([b,a]), sorted, deduplicated",
-                 functions=CMP, bounds="N=2", unwindset=cmp_unwind(2, 1), assumes=["real set membership test (ASSUME_UNIQUE off)", "sort_unstable ↦ bounded insertion sort with the same contract", COMPACT_STUBS[2]], timeout=2400, mem_gb=30, mem_est=14),
+                 functions=CMP, bounds="N=2", unwindset=cmp_unwind(2, 1), assumes=["real set membership test (ASSUME_UNIQUE off)", COMPACT_STUBS[0], COMPACT_STUBS[2]], timeout=2400, mem_gb=30, mem_est=14),
                H("c08_prelude_dup", "c08", [T], "∀ two arbitrary valid cells: compact([a,a,b]) = compact([a,b,a]) = compact([a,b])",
-                 functions=CMP, bounds="N=3 with one duplicate", unwindset=cmp_unwind(3, 1), assumes=["real set membership test (ASSUME_UNIQUE off)", "sort_unstable ↦ bounded insertion sort with the same contract", COMPACT_STUBS[2]], timeout=3600, mem_gb=40, mem_est=28),
-               H("c08_unsorted_4", "c08", [T], "input strictly decreasing, sort stub = reverse: coverage preserved and 4 siblings still merge (detects a dropped/misplaced sort)", functions=CMP, bounds="N=4", unwindset=cmp_unwind(4),
-                 assumes=["sort_unstable ↦ reverse (a correct sort for strictly decreasing input)"] + COMPACT_STUBS[1:], timeout=5400, mem_gb=40, mem_est=16),
+                 functions=CMP, bounds="N=3 with one duplicate", unwindset=cmp_unwind(3, 1), assumes=["real set membership test (ASSUME_UNIQUE off)", COMPACT_STUBS[0], COMPACT_STUBS[2]], timeout=3600, mem_gb=40, mem_est=28),
+               H("c08_unsorted_4", "c08", [T], "input strictly decreasing: coverage preserved and 4 siblings still merge (detects a dropped/misplaced sort)", functions=CMP, bounds="N=4", unwindset=cmp_unwind(4),
+                 assumes=COMPACT_STUBS, timeout=5400, mem_gb=40, mem_est=16),
                ],
 )
 MANIFEST_TEXT["C08"] = dict(
@@ -419,13 +417,16 @@ MANIFEST_TEXT["C09"] = dict(
 )
 
 PROPERTIES["C10"] = dict(
-    explanation="maximality (no complete sibling group survives, through a universally quantified parent), idempotence and sortedness of the result, invariance under one split move (inductive step for canonicity) on non-overlapping strictly increasing inputs",
+    explanation="maximality (no complete sibling group survives, through a universally quantified parent), idempotence and sortedness of the result, invariance under one split move (inductive step for canonicity) on non-overlapping sets of N distinct cells; the base-cell/quintant interleaving class for all face pairs",
     assumptions=[SORTED + "; pairwise non-overlapping", FMT_STUB] + COMPACT_STUBS,
     trusted_base=["bit-level oracles (res_stub, spec_valid, spec_covers, spec_child) proved equal to the real code in the same run"],
-    outside_claim=["N above the bound (4–5)", "sets containing cells of resolution < 2 together with a complete low-resolution sibling group need N ≥ 6: outside the solver bound — the known r ≤ 1 defect is carried by native witness replay (known_findings.json)"],
+    outside_claim=["N above the bound (4–5) for arbitrary sets", "low-resolution sets (base cells mixed with quintants) beyond the two-symbol family c10_lowres_fg: six independent symbolic cells of resolution ≤ 1 run out of memory (50 GB)",
+                   "cascades deeper than one level inside one call (need ≥ 7 cells)"],
     harnesses=[oracle("oracle_res_equiv"), oracle("oracle_valid_equiv"), oracle("oracle_covers_equiv"), 
                H("oracle_child_equiv", "oracles", [Q, T], "∀ valid cell(1..28), k<4: spec_child(id,k) = serialize(child k)", functions=SER, bounds="none", exhaustive=True),
                H("c10_max_4", "c10", [Q, T], "∀ non-overlapping strictly increasing 4-tuple, ∀ valid parent p: output never contains all children of p", functions=CMP, bounds="N=4", unwindset=cmp_unwind(4), assumes=COMPACT_STUBS, deps=CDEPS, timeout=5400, mem_gb=40, mem_est=16),
+               H("c10_lowres_fg", "c10", [T], "∀ faces f≠g: compact({5 quintants of f, base cell of g}) = {base f, base g}, numerically sorted (the interleaving class)", functions=CMP, bounds="6 cells built from two symbolic faces",
+                 unwindset=cmp_unwind(6), assumes=COMPACT_STUBS[1:], timeout=5400, mem_gb=45, mem_est=30),
                H("c10_max_5_hi", "c10", [T], "same, N=5, resolutions ≥ 2", functions=CMP, bounds="N=5, r≥2", unwindset=cmp_unwind(5), assumes=COMPACT_STUBS, deps=CDEPS, timeout=7200, mem_gb=45, mem_est=24),
                H("c10_max_5", "c10", [T], "same, N=5, all resolutions 0..29 (includes 5 quintants of one face)", functions=CMP, bounds="N=5", unwindset=cmp_unwind(5), assumes=COMPACT_STUBS, deps=CDEPS, timeout=7200, mem_gb=45, mem_est=24),
                H("c10_idem_4_hi", "c10", [T], "∀ non-overlapping 4-tuple at r≥2: result sorted; compact(compact(x)) = compact(x) as vectors", functions=CMP, bounds="N=4, r≥2", unwindset=cmp_unwind(4), assumes=COMPACT_STUBS, timeout=7200, mem_gb=45, mem_est=24),
@@ -437,6 +438,6 @@ PROPERTIES["C10"] = dict(
 MANIFEST_TEXT["C10"] = dict(
     level="bounded model checking of the real compact on every non-overlapping strictly increasing N-tuple (N ≤ 4–5): maximality via a universally quantified parent, idempotence, and invariance under one split move",
     design_ref="DESIGN.md §5 C08/C10",
-    note="N ≤ 5; the low-resolution (r ≤ 1) interleaving defect needs N = 6 which does not close in memory — it is a known finding established by native witness replay, listed in known_findings.json",
+    note="N ≤ 5 for arbitrary sets; the low-resolution interleaving class (where the defect repaired by 8da9742 lived) is covered by the two-symbol harness c10_lowres_fg in the thorough tier; guard on, bounded sort stub, verified get_resolution stub",
     technique="Kani/CBMC bounded model checking (SAT) of the real compact over symbolic non-overlapping sorted cell tuples",
 )
